@@ -70,6 +70,12 @@ def run(chk):
                                  ops=["map_space_dimensions", "remove_space_dimensions", "remove_higher_space_dimensions", "expand_space_dimension",
                                       "fold_space_dimensions", "add_space_dimensions_and_embed", "add_space_dimensions_and_project", "concatenate_assign"])
     cid += hd
+    # binary operators on pairs of boxes / slabs sharing, touching or crossing faces
+    lines += gen_poly.make_boxpair_cases(chk.seed * 1000 + 1900, 150 if chk.quick else 3000,
+                                         ["poly_hull_assign", "poly_difference_assign", "intersection_assign", "simplify_using_context_assign",
+                                          "time_elapse_assign", "positive_time_elapse_assign"])
+    # the predicate-valued variant has the most intricate case analysis (pointed / non-pointed, C / NNC): its own stream
+    lines += gen_poly.make_boxpair_cases(chk.seed * 1000 + 2100, 700 if chk.quick else 8000, ["poly_hull_assign_if_exact"], start=100000)
     lines += gen_poly.make_cases(chk.seed * 7919 + 17, ncase - cid if ncase > cid else 50, maxdim=maxdim, nobj=3, steps=6, pq=0.1, pobs=0.2, start=cid)
     # corpus first
     cdir = os.path.join(common.VERIF, "corpus", "C02")
